@@ -1374,6 +1374,10 @@ def c06(ctx):
         ctx.K("domain", v, ["D %s 00" % hx(s) for s in dom if 0 not in s])
         ctx.K("special", v, ["S %s" % hx(s) for s in dom[::2] if 0 not in s])
         ctx.K("tld", v, ["T %s" % hx(s) for s in dom[::5] if 0 not in s])
+        # reserved-name shapes: labels of every length 1..12 and 62/63 in the last two positions (the label copies of is_special_domain)
+        spd = [s for s in gen.special_domains("quick", rng)[:: (3 if ctx.tier == "quick" else 1)] if 0 not in s]
+        ctx.K("special-shapes", v, ["S %s" % hx(s) for s in spd])
+        ctx.K("special-api", v, ["E 5321 1 %s" % hx(b"a@" + s) for s in spd[::2]], nontrivial=lambda op, ln: True)
         for m in MODES:
             for t in (0, 1):
                 ctx.K("api%d" % m, v, ["P %d %d %d %s" % (m, t, 760, hx(s)) for s in mails + edge + [b"a@" + d for d in lit] if 0 not in s], nontrivial=lambda op, ln: fields(ln)[2] not in ("3", "16"))
